@@ -48,7 +48,7 @@ theorem Preserved.withTime {J : World → Prop}
   same hs h := ⟨hs.2.2.2.2.2.2.1 h.1, same hs h.2⟩
   tick he h := ⟨(timeOk_tick h.1 he).1, mono _ _ (timeOk_tick h.1 he).2 h.2⟩
   exec w p c _ h := ⟨(execCmd_fp w p c).2.2.2.2.2.2.1 h.1, exec w p c h.2⟩
-  resume w p f sig _ h := ⟨(resumeFrame_fp w p f sig).2.2.2.2.2.2.1 h.1, resume w p f sig h.2⟩
+  resume w p f sig _ _ h := ⟨(resumeFrame_fp w p f sig).2.2.2.2.2.2.1 h.1, resume w p f sig h.2⟩
   finish w p v st h := ⟨(finishProc_fp w p v st).2.2.2.2.2.2.1 h.1, finish w p v st h.2⟩
 
 /-! ### the five kinds -/
